@@ -101,6 +101,15 @@ Theorem C01_src_total : forall cr lm data, nonneg_data data -> dom_data data ->
   forall s, In s (cx_steps (mk_ctx cr lm data)) -> step_src_total s.
 Proof. exact C01_src_total_proof. Qed.
 
+(** the same for every component set with non-negative values, whatever their size (no floor of 0.01 kWh is needed
+    since fix c3bd83b) *)
+Theorem C01_src_total_any_values : forall cr lm data, nonneg_data data ->
+  forall s, In s (cx_steps (mk_ctx cr lm data)) -> step_src_total s.
+Proof.
+  intros cr lm data Hn s Hs. apply steps_inv in Hs as (t & ->). unfold step_src_total.
+  exact (used_src_sum_any (cx_prio (mk_ctx cr lm data)) lm _ (col_at_ok cr data t Hn)).
+Qed.
+
 Theorem C01_annual : forall cr lm data, nonneg_data data -> annual_conserved (mk_ctx cr lm data).
 Proof. exact C01_annual_proof. Qed.
 
@@ -122,3 +131,4 @@ Print Assumptions C01_step.
 Print Assumptions C01_src.
 Print Assumptions C01_src_total.
 Print Assumptions C01_annual.
+Print Assumptions C01_src_total_any_values.
